@@ -59,6 +59,32 @@ def raw_stress(r) -> str:
     return "echo ${a[" + body + "]}"
 
 
+POSITIONS = [
+    "echo @", "echo pre@post", "X=@ true", "X=@", "a=(@ b)", "a+=(@)", "export X=@", "declare -a b=(@)", "local x=@",
+    "echo ${x:-@}", "echo ${x:=@}", "echo ${HOME:+@}", "echo ${x-@}", "echo ${HOME+@}", "echo ${HOME#@}", "echo ${HOME%%@}", "echo ${HOME/@/y}", "echo ${HOME//x/@}", "echo ${HOME:@}",
+    "echo ${a[@]}", "echo ${#a[@]}", "echo ${!a[@]}", "a[@]=1", "echo ${x:-${y:-@}}", "echo ${x:-a ${y:-b @} c}",
+    "echo $(( @ + 1 ))", "echo $(( a[@] ))", "echo $[ @ ]", "(( @ ))", "(( x = @ ))", "for ((i=@; i<1; i++)); do :; done", "for ((i=0; i<@; i++)); do break; done", "let x=@",
+    "for i in @; do :; done", "for i in a @; do :; done", "case @ in x) ;; esac", "case x in @) ;; esac", "case x in a|@) ;; esac", "case x in x) echo @ ;; esac",
+    "[[ -n @ ]]", "[[ @ == x ]]", "[[ x == @ ]]", "[[ x =~ @ ]]", "[[ x == a@b ]]", "[[ -v a[@] ]]", "[[ ! ( -z @ && x ) ]]", "[ -n @ ]", "test -n @",
+    "cat <<EOF\n@\nEOF", "cat <<-EOF\n\t@\nEOF", "cat <<< @", "cat < @", "echo hi > @", "echo hi >> @", "echo hi >| @", "echo hi 2> @", "echo hi &> @", "echo hi 2>&@", "echo hi >&@", "exec 3> @", "cat 0< @",
+    "f() { echo @; }; f", "function g { echo @; }; g", "time echo @", "! echo @", "( echo @ )", "{ echo @; }", "echo a | echo @", "true && echo @", "false || echo @", "echo a; echo @", "echo @ &",
+    "if echo @; then :; fi", "if true; then echo @; fi", "if false; then :; else echo @; fi", "if false; then :; elif echo @; then :; fi", "while echo @; do break; done", "until echo @; do break; done", "while true; do echo @; break; done",
+    "echo \"${x:-@}\"", "echo \"pre ${x:-a @ b} post\"", "echo \"$(echo @)\"", "echo $(echo @)", "echo `echo @`", "echo $(echo $(echo @))", "echo <(echo @)", "cat <(echo @)", "echo @ > /dev/null 2>&1", "x=${y:-@} true",
+    "printf '%s' @", "eval echo @", "echo {a,@}", "echo ~/@", "echo $'x'@", "echo ${x:-'lit'@}", "echo ${x:-\"dq\"@}", "echo ${x:-\\@}",
+]
+SUBSTS = ["$(rm x)", "`rm x`", "<(rm x)", ">(rm x)", "$( rm x )", "$(rm x;)", "$(rm x\n)", "$(rm x #c\n)", "$((1)); rm x", "${z:-$(rm x)}", "$(echo a; rm x)", "$(true && rm x)", "$(true | rm x)", "$(if true; then rm x; fi)"]
+QUOTES = ["@", "\"@\"", "\"a @ b\"", "'@'", "\"'@'\"", "a'b'@", "\\@", "\"it's @ isn't\"", "@@"]
+
+
+def position_matrix():
+    """every syntactic position x substitution syntax x quoting context, with the non-approvable `rm x` inside:
+    deterministic (no seed), so each combination is exercised on every run"""
+    for pos in POSITIONS:
+        for s in SUBSTS:
+            for q in QUOTES:
+                yield pos.replace("@", q.replace("@", s))
+
+
 def correspondence(ctx):
     cfg = _cfg()
     r = rng("c01-corr")
@@ -67,6 +93,11 @@ def correspondence(ctx):
     g2 = B.Gen(r, exotic=True, raw_safe=False, p_ask=0.15, p_deny=0.05)
 
     def cases():
+        # the deterministic position matrix (every third entry, rotating with the seed) also goes through the model
+        off = r.randrange(3)
+        for i, t in enumerate(position_matrix()):
+            if i % 3 == off:
+                yield t, None
         for i in range(n):
             x = r.random()
             if x < 0.45:
@@ -93,6 +124,17 @@ def search(ctx):
     g = B.Gen(r, exotic=True, raw_safe=False, p_ask=0.12, p_deny=0.04, pipe_both=False)
     g.no_file_redirects = True
     progs = []
+    matrix = list(position_matrix())
+    stats["matrix_commands"] = len(matrix)
+    for t in matrix:
+        try:
+            d = analyze(t, cfg, Path(CWD))
+        except Exception:  # noqa: BLE001
+            continue
+        stats["evaluations"] += 1
+        stats["matrix:" + d.action] += 1
+        if d.action == "allow":
+            progs.append(t)
     for i in range(n):
         if r.chance(0.7):
             p, t = g.program()
